@@ -34,6 +34,18 @@ add("C09", "exploration",
     "Trusts the harness reference (written from the property text) and jiff's Zoned construction for fixed offsets. DST zones, delete_unchanged and calendar-unit keep-within spans are outside the exact comparison (stated in evidence assumptions).",
     "DESIGN.md section 5 C09")
 
+add("C03", "fault_enumeration",
+    "runtime monitor at the storage boundary: ordered log of write/remove calls of each command (one lock = true storage order, several seeded-delay linearisations); every prefix state rebuilt and every listed snapshot fully read back; every single mutating call failed in turn (no effect / effect-then-error) and command result + resulting state judged",
+    "For each recorded linearisation the enumeration of crash prefixes and single faults is complete (exhaustive per recorded execution); commands, configurations, source trees and further linearisations are sampled. 18 command variants per scenario (backup, forget, 5 prune modes, copy, merge, rewrite, repair snapshots/index, config).",
+    "Assumes storage applies acknowledged calls in order and atomically per call (the in-memory universe store); a panic in answer to an injected fault is recorded as loud failure, not judged.",
+    "DESIGN.md section 5 C03")
+
+add("C17", "exploration",
+    "runtime monitor: real index (hook H3, three modes) and Repository::get_index_entry on planted encrypted index files vs. a multimap model built from the same generated index files",
+    "Held on the generated index-file sets: has/get_id/total_size/pack iteration agreed with the multimap model for all present ids, their one-bit neighbours and random ids. Sampled, not exhaustive.",
+    "Trusts the harness multimap model and its raw index-file writer (own AES-CTR/Poly1305). Homogeneous packs only.",
+    "DESIGN.md section 5 C17")
+
 NOT_YET = "check not built yet (work in progress in this round)"
 
 def main():
